@@ -24,7 +24,15 @@ def obs_obl(H):
                 obj = getattr(obj, part) if not isinstance(obj, dict) else obj[part]
             if getattr(obj, "dtype", None) is not None and obj.dtype.kind == "f" and getattr(H, "OBS_TOL", None):
                 raise NotImplementedError
-            out.append((f"obs.{k} == observer(S')", X.eq_arr(vs(obj), v)))
+            grp = getattr(H, "OBS_GROUP", None)   # optional: split big leaves into chunks of OBS_GROUP elements (one query each)
+            a, b = vs(obj), v
+            if grp and not isinstance(a, X.V) and np.asarray(a, dtype=object).size > grp:
+                a, b = np.asarray(a, dtype=object).reshape(-1), np.asarray(b, dtype=object).reshape(-1)
+                assert a.shape == b.shape, (k, a.shape, b.shape)
+                for i in range(0, a.size, grp):
+                    out.append((f"obs.{k}[flat {i}:{min(i + grp, a.size)}] == observer(S')", X.eq_arr(a[i:i + grp], b[i:i + grp])))
+                continue
+            out.append((f"obs.{k} == observer(S')", X.eq_arr(a, b)))
         return out
     return f
 
@@ -33,9 +41,19 @@ def run(R, cfg, over=None):
     H = base.get(cfg, **(over or {}))
     if H.BMC:
         from checks import bmc
-        return bmc.run(R, H, obs_obl(H))
+        # optional harness hooks (BMC only), see C04: `obs_obl_bmc` = per-step bridge obligations, `kernels_c12(R)` = the
+        # observation function against the independent observer for every raw state of the domain
+        out = bmc.run(R, H, getattr(H, "obs_obl_bmc", None) or obs_obl(H))
+        if hasattr(H, "kernels_c12"):
+            H.kernels_c12(R)
+        return out
     sp = D.build_step(R, H)
-    D.prove_list(R, sp, obs_obl(H))
+    # optional harness hook `obs_guard(st, act, ns, ts) -> V-bool`: steps for which the docs define the observation (e.g.
+    # RobotWarehouse: not the step that ends the episode by a collision); the restriction is recorded in the evidence notes
+    guard = getattr(H, "obs_guard", None)
+    if guard is not None:
+        R.note(f"{cfg}: observation claimed only under harness obs_guard: {(guard.__doc__ or '').strip()[:200]}")
+    D.prove_list(R, sp, obs_obl(H), guard=guard)
     # every observation leaf must be covered by the observer (or explicitly declared uncovered)
     leaves = [jax.tree_util.keystr(p) for p, _ in jax.tree_util.tree_leaves_with_path(sp.ts.observation, is_leaf=S_is)]
     R.note(f"{cfg}: observation leaves {leaves}; observer covers {sorted(H.observer(sp.ns).keys())}")
